@@ -114,6 +114,7 @@ pub struct Cfg {
     pub start_id: u32,
     pub il: u8,
     pub efdt: u16,
+    pub fdt_dur: u64,
     pub queues: BTreeMap<u32, u32>,
 }
 
@@ -277,7 +278,7 @@ impl SchedEngine {
         let mut s = Sender::new(ep, 1, &oti, &config);
         s.subscribe(Arc::new(Sub(self.events.clone())));
         self.sender = Some(s);
-        self.cfg = Some(Cfg { full, start_id: n[2] as u32, il: n[3] as u8, efdt: n[4] as u16, queues });
+        self.cfg = Some(Cfg { full, start_id: n[2] as u32, il: n[3] as u8, efdt: n[4] as u16, fdt_dur: n[1], queues });
         "ok".into()
     }
 
